@@ -262,7 +262,17 @@ Definition digest_diff (a b : digest) : N :=
 
 (* ---- cases ---- *)
 Definition trace := list (op * obs * digest).
-Record hcase := mkcase { k_id : N; k_mode : N; k_limits : list N; k_gated : bool; k_trace : trace }.
+(* k_inflight: indices of the steps of the trace that lie inside one request of the real hub which the driver holds
+   open (a forced schedule: the room join of a connection is held at the fake backend, the connection is cut, other
+   ops run, the backend answers).  The model has no state for the inside of a request: such a schedule is written as
+   the sequential history it must be equivalent to (the cut as ODrop, ..., the held join last, as an OJoin of the
+   connection the session then has); every step's observations are compared with the model's as usual, the tables
+   are compared from the step on at which the held request has finished (a connection that is closed while its
+   handler is busy stays attached to its session until the handler returns: during those steps the implementation's
+   digest shows the session with its old connection and not yet in the expiry list, and the trace predicates, which
+   read the implementation's digests, treat that connection as one the server can no longer write to). *)
+Record hcase := mkcasef { k_id : N; k_mode : N; k_limits : list N; k_gated : bool; k_trace : trace; k_inflight : list N }.
+Notation mkcase a b c d e := (mkcasef a b c d e []).
 
 Definition sem_step (mode : N) (h : hub) (o : op) : hub * list out :=
   if N.eqb mode 2 then step h o else qstep h o.
@@ -280,20 +290,20 @@ Definition is_wfail (h : hub) (o : op) : option N :=
   | _ => None
   end.
 
-Fixpoint first_diff (mode : N) (i : N) (h : hub) (tr : trace) : option (N * N) :=
+Fixpoint first_diff (mode : N) (infl : list N) (i : N) (h : hub) (tr : trace) : option (N * N) :=
   match tr with
   | [] => None
   | (o, ob, dg) :: r =>
       match is_wfail h o with Some _ => None | None =>
       let '(h', outs) := sem_step mode h o in
       if negb (if unordered_op o || ends_several h h' then obs_match_unordered ob outs else obs_match ob outs) then Some (i, 1)
-      else if negb (digest_match dg (digest_of h')) then Some (i, 100 + digest_diff dg (digest_of h'))
-      else first_diff mode (i + 1) h' r
+      else if negb (nmem i infl) && negb (digest_match dg (digest_of h')) then Some (i, 100 + digest_diff dg (digest_of h'))
+      else first_diff mode infl (i + 1) h' r
       end
   end.
 
 Definition compare_case (c : hcase) : list (N * N * N) :=
-  match first_diff c.(k_mode) 0 (init c.(k_limits) c.(k_gated)) c.(k_trace) with
+  match first_diff c.(k_mode) c.(k_inflight) 0 (init c.(k_limits) c.(k_gated)) c.(k_trace) with
   | Some (i, what) => [(c.(k_id), if what <? 100 then 1 else 3, i * 1000 + what)]
   | None => []
   end.
